@@ -2,7 +2,7 @@
 import json, os
 ROOT = os.path.dirname(os.path.dirname(os.path.abspath(__file__)))
 BASELINE = ("cd /repo && AUTOBAHN_VERIF= /venv/bin/python -m pytest -ra -q -p no:cacheprovider --timeout=900 "
-            "--continue-on-collection-errors --junitxml=/tmp/verif_baseline.junit.xml")
+            "--continue-on-collection-errors --junitxml=/verif/build/baseline.junit.xml")
 
 # id -> (design section, level text, level note, technique)
 CLAIMS = {
